@@ -7,14 +7,15 @@
     by the PostTxProcessing hook, a signed Ethereum transaction to a contract that holds
     tokens and makes a LIST of calls (several Transfer logs in one receipt) followed by
     the hook, the bank MsgSend wrapper, the IBC receive / ack /
-    timeout callbacks, toggle, params) against the token oracle [tk];
+    timeout callbacks, toggle, params, and [Spend owner x]: the beneficiary of the allowances that the
+    delayed-malicious token hands out calls transferFrom(owner, thief, x)) against the token oracle [tk];
     [cf = impl] is /repo as it is (after the "fix:" commit 1c369cb), [cf = spec] what the
     property demands (no log-driven mint for externally owned pairs), [cf = pre_fix] the
     tree before 1c369cb ("transfer returned false" was treated as success by the wrapper).
     [HT] is the honest token (OpenZeppelin ledger with minter/burner role). *)
 From Coq Require Import ZArith List.
 From stdpp Require Import gmap.
-From HV Require Import Erc20.PegModel Erc20.PegProofs Erc20.MultiProofs Erc20.SpellProofs.
+From HV Require Import Erc20.PegModel Erc20.PegProofs Erc20.MultiProofs Erc20.SpellProofs Erc20.AllowProofs.
 Import ListNotations.
 Local Open Scope Z_scope.
 
@@ -257,6 +258,82 @@ Theorem C10_mint_witnessed_impl_refuted :
   ~ mint_witnessed fakelog_token k7_state (fst (step fakelog_token impl k7_state (Eth 1 UOther))).
 Proof. exact mint_witnessed_impl_refuted. Qed.
 Print Assumptions C10_mint_witnessed_impl_refuted.
+
+(** ** finding K19: a conversion that enters through the EVM hook is not monitored for Approval events
+
+    [approve_token] is /repo/contracts/ERC20MaliciousDelayed.sol WITH the allowances it hands out:
+    every transfer(recipient, x) first sets allowance(recipient, thief) = 10^18 and emits Approval.
+    [peg_backed tk s] is the state clause of the property against any token oracle: coin-origin pair:
+    total supply <= coins escrowed in the module account; ERC20-origin pair: coin supply <= the
+    balance the token reports for the module. *)
+
+(** finding K19 (known, class erc20:hook-path-conversion-grants-allowance-on-module-tokens): there is a
+    history - the deployer mints 1000 tokens to holder 1; holder 1 sends the Ethereum transaction
+    token.transfer(module address, 100); the thief calls transferFrom(module, thief, 100) - every step
+    of which succeeds in the semantics of /repo, after whose second step the pair is backed (100 coins,
+    100 tokens in escrow, on which the thief holds an allowance of 10^18) and after which 100 coins
+    circulate while the token reports 0 for the module: the backing invariant fails *)
+Theorem C10_hook_path_approving_token_breaks_backing_refuted :
+  exists h : list op,
+    let s1 := run approve_token impl (firstn 2 h) approve0 in
+    let s' := run approve_token impl h approve0 in
+    peg_backed approve_token approve0 /\
+    codes approve_token impl h approve0 = [OK; OK; OK] /\
+    peg_backed approve_token s1 /\ supply s1 = 100 /\ zget (aallow (tok s1)) MODULE = 10 ^ 18 /\
+    reg s' = true /\ en s' = true /\ own_mod s' = false /\
+    supply s' = 100 /\ zget (cbal s') 1 = 100 /\
+    balance_of approve_token (tok s') MODULE = Some 0 /\ balance_of approve_token (tok s') THIEF = Some 100 /\
+    ~ peg_backed approve_token s'.
+Proof. exact hook_path_approving_token_breaks_backing_refuted. Qed.
+Print Assumptions C10_hook_path_approving_token_breaks_backing_refuted.
+
+(** the same history in the semantics the property demands ([spec]: no log-driven mint for externally
+    owned pairs): no coin is created, the pair stays backed *)
+Theorem C10_hook_path_approving_token_spec :
+  let s' := run approve_token spec k19_history approve0 in
+  codes approve_token spec k19_history approve0 = [OK; OK; OK] /\ supply s' = 0 /\ peg_backed approve_token s'.
+Proof. exact hook_path_approving_token_spec. Qed.
+Print Assumptions C10_hook_path_approving_token_spec.
+
+(** the positive counterpart: the MESSAGE path refuses this token in EVERY state of an ERC20-origin pair
+    (any sender, receiver, amount): MsgConvertERC20 and MsgConvertCoin fail without effect (the
+    Approval monitor, when every other check passes) ... *)
+Theorem C10_message_path_refuses_approving_token :
+  forall (s : st apl) (a b : N) (x : Z), own_mod s = false ->
+    (exists r, msg_convert_erc20 approve_token s a b x = (s, r) /\ r <> OK) /\
+    (exists r, msg_convert_coin approve_token s a b x = (s, r) /\ r <> OK).
+Proof. exact message_path_refuses_approving_token. Qed.
+Print Assumptions C10_message_path_refuses_approving_token.
+
+(** ... so over ALL histories without an Ethereum transaction (messages, the MsgSend wrapper, the IBC
+    callbacks, toggles, parameter changes, the environment's credits AND any spends of the thief), from
+    ANY state in which the module's tokens carry no allowance and back the coins (any balances, any
+    allowances on the holders' own tokens), in either semantics, the pair stays backed and the
+    module's tokens stay free of allowances *)
+Theorem C10_message_paths_keep_backing_against_approving_token :
+  forall (cf : cfg) (ops : list op) (s : st apl), InvA s -> Forall not_eth ops ->
+    InvA (run approve_token cf ops s) /\ peg_backed approve_token (run approve_token cf ops s).
+Proof. exact message_paths_keep_backing_against_approving_token. Qed.
+Print Assumptions C10_message_paths_keep_backing_against_approving_token.
+
+(** for the honest token the general state clause is [backing_inv] *)
+Theorem C10_state_clause_of_honest_token :
+  forall s : st ledger, peg_backed HT s <-> backing_inv s.
+Proof. exact peg_backed_honest. Qed.
+Print Assumptions C10_state_clause_of_honest_token.
+
+(** non-vacuity: the hypotheses hold after the deployer has handed out tokens; the conversion
+    attempts of a message-path history are refused by the monitor, the thief can spend what a holder
+    received (120 of holder 2's tokens) but nothing of the module's, no coin exists *)
+Theorem C10_nonvacuous_message_paths_approving_token :
+  let s := run approve_token impl [Eth DEPLOYER (UMint 1 1000); Eth 1 (UTransfer 2 300)] approve0 in
+  let h := [CE 1 1 100; Spend MODULE 5; Spend 2 120; Toggle; CE 2 2 10; Toggle; Send 1 2 7] in
+  InvA s /\ Forall not_eth h /\
+  codes approve_token impl h s = [EApproval; EOther; OK; OK; EDisabled; OK; EApproval] /\
+  balance_of approve_token (tok (run approve_token impl h s)) THIEF = Some 120 /\
+  supply (run approve_token impl h s) = 0.
+Proof. exact message_paths_nonvacuous. Qed.
+Print Assumptions C10_nonvacuous_message_paths_approving_token.
 
 (** repaired defect (fix: 1c369cb): before the fix the MsgSend wrapper reported
     success when the token's transfer() answered false: nothing moved ... *)
